@@ -168,8 +168,30 @@ def merge_fw_selfref(a: dict, b: dict, top: bool) -> dict:
     return out
 
 
+def _process_fixed(ctx: Ctx, c: dict) -> None:
+    from dictIO import DictReader
+    ctx.case(c, True, ("fixed",))
+    try:
+        with impl.scratch() as td:
+            for nm, text in c["files"].items():
+                (td / nm).parent.mkdir(parents=True, exist_ok=True)
+                (td / nm).write_text(text)
+            reset_globals()
+            got = spec.strip_placeholders(impl.plain(DictReader.read(td / c["root"])))
+    except Exception as e:  # noqa: BLE001
+        ctx.violation("DictReader.read raises on an include graph", c, repr(e), c["expect"]); return
+    got = {k: v for k, v in got.items() if not str(k).startswith("#include")}
+    if spec.unordered(got) != spec.unordered(c["expect"]):
+        ctx.violation("result is not the first-wins merge of the include closure (the including file wins; only an entry that "
+                      "refers to its OWN key is a placeholder)", c, enc(got), enc(c["expect"]))
+
+
 def process(ctx: Ctx, cases: list[dict]) -> None:
     from dictIO import DictReader
+    fixed = [c for c in cases if c.get("kind") == "fixed"]
+    cases = [c for c in cases if c.get("kind") != "fixed"]
+    for c in fixed:
+        _process_fixed(ctx, c)
     reqs = []
     for c in cases:
         fs = []
@@ -282,6 +304,21 @@ def run(ctx: Ctx) -> None:
         ctx.exhaustive.append("all include graphs (edge sets incl. self loops) on <= 3 files")
     for _ in range(ctx.n(250, 5000)):
         cases.append(gen_graph_case(rng, rng.randint(2, 8)))
+    # keys with regular-expression metacharacters: an entry that refers to ANOTHER key which merely matches its own key read
+    # as a pattern (`p.w $p_w`) is an ordinary value of the including file, not a placeholder the include may fill
+    for key, other in (("p.w", "p_w"), ("p+w", "ppw"), ("a|b", "a"), ("x?y", "y"), ("k.", "k1"), ("c*", "c"), ("w^2", "w"), ("gamma", "gamma")):
+        for syn in ("native", "json"):
+            own = key == other
+            if syn == "native":
+                files = {"root": (f"{other} 1000;\n" if not own else "") + f"{key} ${other};\nq 1;\n#include 'inc'\n", "inc": f"{key} 998;\nz 2;\n"}
+                root = "root"
+            else:
+                d = ({other: 1000} if not own else {})
+                d.update({key: f"${other}", "q": 1, "#include": "inc"})
+                files = {"root.json": _json.dumps(d), "inc": f"{key} 998;\nz 2;\n"}
+                root = "root.json"
+            exp = {key: 998, "q": 1, "z": 2} if own else {other: 1000, key: 1000, "q": 1, "z": 2}
+            cases.append({"kind": "fixed", "files": files, "root": root, "expect": exp})
     process(ctx, cases)
 
 
